@@ -157,6 +157,31 @@ class Client(Entity):
         return None
 
 
+class Prober(Entity):
+    """Harness reader: at every tick while a write is unacknowledged or a message is in flight (plus the
+    store latencies) it sends one Read per (node, key); hard stop at the worst-case horizon."""
+
+    def __init__(self, name, world, nodes, keys, nwrites, last_issue, slack, hard_stop):
+        super().__init__(name)
+        self.w, self.nodes, self.keys = world, nodes, keys
+        self.nwrites, self.last_issue, self.slack, self.hard_stop = nwrites, last_issue, slack, hard_stop
+
+    def handle_event(self, event):
+        w = self.w
+        t = w.tick()
+        evs = []
+        for n in self.nodes:
+            for k in self.keys:
+                f = RecFuture(w)
+                w.reads.append((t, n.name, k, f))
+                evs.append(Event(time=self.now, event_type="Read", target=n,
+                                 context={"metadata": {"key": k, "reply_future": f}}))
+        busy = max([self.last_issue] + [ts + d for (_tag, _et, ts, d) in w.msgs]) + self.slack
+        if t < self.hard_stop and (t <= busy or len(w.acks) < self.nwrites):
+            evs.append(Event(time=T(t + 1), event_type="Probe", target=self))
+        return evs
+
+
 class World:
     """Common bookkeeping of one execution."""
 
@@ -353,8 +378,9 @@ def chain_horizon(cfg, inp):
 
 
 def run_chain(chooser, cfg, inp):
-    """cfg: {len, craq, prof}; inp: [(tick, key, value)].  Reads: every tick 0..horizon, every key,
-    at every node when CRAQ is on, at the tail only when it is off (documented usage)."""
+    """cfg: {len, craq, prof}; inp: [(tick, key, value)].  Reads (CRAQ on): at every tick while anything
+    is in flight, for every written key, at every non-tail node (a read served by the tail itself returns
+    what the tail holds; with CRAQ off the documented usage is tail reads only, so no read is issued)."""
     w = World(chooser)
     w.fixed_types = ("Read",)   # a forwarded read is served by the tail itself whatever its delay
     net = Network(name="net")
@@ -369,21 +395,19 @@ def run_chain(chooser, cfg, inp):
     for i in range(len(nodes) - 2):
         w.link(net, nodes[i], tail)                  # forwarded reads from non-adjacent nodes
     cl = w.clk = Client("client", w)
-    sim = w.sim = Simulation(entities=[*nodes, net, *w.stores.values(), cl])
+    keys = sorted({k for (_t, k, _v) in inp})
+    w.reads = []
+    extra = []
+    if cfg["craq"]:
+        extra = [Prober("prober", w, nodes[:-1], keys, len(inp), max(t for (t, _k, _v) in inp),
+                        sum(PROFILES[cfg["prof"]]) + 1, chain_horizon(cfg, inp))]
+    sim = w.sim = Simulation(entities=[*nodes, net, *w.stores.values(), cl, *extra])
     for (t, k, v) in inp:
         sim.schedule(Event(time=T(t), event_type="Go", target=cl,
                            context={"metadata": {"node": nodes[0], "key": k, "value": v}}))
-    keys = sorted({k for (_t, k, _v) in inp})
-    w.reads = []
-    readers = nodes if cfg["craq"] else [tail]
-    for t in range(0, chain_horizon(cfg, inp) + 1):
-        for n in readers:
-            for k in keys:
-                f = RecFuture(w)
-                w.reads.append((t, n.name, k, f))
-                sim.schedule(Event(time=T(t), event_type="Read", target=n,
-                                   context={"metadata": {"key": k, "reply_future": f}}))
-    r = run_guarded(sim, max_events=MAX_EVENTS + 8 * len(w.reads))
+    for pr in extra:
+        sim.schedule(Event(time=T(0), event_type="Probe", target=pr))
+    r = run_guarded(sim, max_events=4 * MAX_EVENTS)
     return w, r, oracle_chain(w, r, cfg, inp, names)
 
 
@@ -689,6 +713,7 @@ def _job(job):
     def run_fn(ch):
         return execute(scheme, cfg, inp, ch)
 
+    cpu0 = time.process_time()
     first = True
     for choices, points, (w, r, viol) in explore(run_fn, bound=bound):
         st["exec"] += 1
@@ -725,6 +750,7 @@ def _job(job):
                                   "choice_points": len([p for p in points if p[0] > 1]),
                                   "final": w.final(keys), "events": r["events"]})
     st["outcomes"] = len(st["outcomes"])
+    st["cpu"] = time.process_time() - cpu0
     return st
 
 
@@ -758,27 +784,39 @@ def _job_rs(job):
 # ---------------------------------------------------------------------------
 # drivers
 # ---------------------------------------------------------------------------
+def n_assignments(points, bound, alts=2):
+    """Number of delay assignments explored for ``points`` 3-way choice points under a deviation bound."""
+    import math
+    if bound is None:
+        return (alts + 1) ** points
+    return sum(math.comb(points, k) * alts ** k for k in range(0, min(bound, points) + 1))
+
+
 def plan(tier):
-    """Returns {driver: (bounds dict, [jobs])}."""
+    """Returns {driver: (bounds dict, [jobs])}; job = (driver, scheme, cfg, input, deviation bound|None)."""
     q = tier == "quick"
     B = 3 if q else 5
     G = (0, 1, 3)
     plans = {}
 
-    # -- primary-backup ---------------------------------------------------
+    def bound_for(points, full_cap, b):
+        return None if 3 ** points <= full_cap else b
+
+    # -- primary-backup: choice points = backups x writes <= 6 ----------------
     jobs = []
+    gaps = G if q else (0, 1, 3, 7)
     for mode in ("SYNC", "SEMI_SYNC", "ASYNC"):
         for nb in (1, 2):
             for prof in ("instant", "slow"):
                 cfg = {"mode": mode, "nb": nb, "prof": prof, "acklinks": False}
-                for inp in write_inputs((1, 2, 3), G if q else (0, 1, 3, 7), repeated_only=q):
-                    # choice points = nb * writes <= 6: the full product (<= 729) is small
-                    jobs.append(("pb", "pb", cfg, inp, B if (q and nb == 2 and len(inp) == 3) else None))
+                for inp in write_inputs((1, 2, 3), gaps, repeated_only=q):
+                    jobs.append(("pb", "pb", cfg, inp, bound_for(nb * len(inp), 243 if q else 729, B)))
     plans["pb"] = ({"modes": ["SYNC", "SEMI_SYNC", "ASYNC"], "backups": [1, 2], "store_profiles(W,R ticks)": PROFILES,
-                    "writes": "<=3, all key patterns up to renaming" + (" with a repeated key" if q else ""),
-                    "issue_gaps_ticks": list(G if q else (0, 1, 3, 7)), "delay_menu_ticks": list(MENU),
-                    "delay_assignments": ("full product; deviation bound %d for 2 backups x 3 writes" % B) if q
-                    else "full product", "ack_link_delay": "fixed 1 tick (see pb-acklinks)"}, jobs)
+                    "writes": "<=3, all key patterns up to renaming" + (" that repeat a key" if q else ""),
+                    "issue_gaps_ticks": list(gaps), "delay_menu_ticks": list(MENU),
+                    "delay_assignments": (f"full product; deviation bound {B} for 2 backups x 3 writes (6 points)" if q
+                                          else "full product"),
+                    "ack_link_delay": "fixed 1 tick (see pb-acklinks)"}, jobs)
 
     jobs = []
     for mode in ("SYNC", "SEMI_SYNC", "ASYNC"):
@@ -790,68 +828,73 @@ def plan(tier):
                              "delay_assignments": f"Replicate AND ReplicationAck links from menu; full product for 1 "
                                                   f"backup, deviation bound {B} for 2"}, jobs)
 
-    # -- chain ------------------------------------------------------------
+    # -- chain: choice points per write = 2/3 (length 2 plain/CRAQ), 3/5 (length 3) ---------
     jobs = []
     for ln in (2, 3):
         for craq in (True, False):
             for prof in ("instant", "slow"):
                 cfg = {"len": ln, "craq": craq, "prof": prof}
+                per = (3 if craq else 2) if ln == 2 else (5 if craq else 3)
                 if q:
-                    sizes = (1, 2, 3) if ln == 2 else (1, 2)
-                    inps = write_inputs(sizes, (0, 1, 3), repeated_only=True)
-                    if ln == 3:
-                        inps += [[(0, "a", 1), (1, "a", 2), (2, "a", 3)], [(0, "a", 1), (1, "b", 2), (4, "a", 3)]]
+                    inps = write_inputs((1, 2, 3), G, repeated_only=True) if ln == 2 else \
+                        write_inputs((1, 2), G, repeated_only=True) + \
+                        [[(0, "a", 1), (1, "a", 2), (2, "a", 3)], [(0, "a", 1), (1, "b", 2), (4, "a", 3)]]
+                elif ln == 2:
+                    inps = write_inputs((1, 2, 3), G)
                 else:
-                    inps = write_inputs((1, 2, 3), (0, 1, 3), repeated_only=False)
+                    inps = write_inputs((1, 2), G) + write_inputs((3,), (1, 3), repeated_only=True)
                 for inp in inps:
-                    per = (3 if craq else 2) if ln == 2 else (5 if craq else 3)
                     pts = per * len(inp)
-                    full = 3 ** pts
                     if q:
-                        b = None if full <= 1000 else B
-                        if ln == 3 and len(inp) == 3:
-                            b = 2
+                        b = bound_for(pts, 243, 2 if len(inp) == 3 else B)
                     else:
-                        b = None if full <= 20000 else B
-                        if ln == 3 and craq and len(inp) == 3:
-                            b = 4
+                        b = bound_for(pts, 729, 3 if pts >= 15 else (4 if pts >= 9 else B))
                     jobs.append(("chain", "chain", cfg, inp, b))
     plans["chain"] = ({"chain_length": [2, 3], "craq": [True, False], "store_profiles(W,R ticks)": PROFILES,
-                       "writes": "<=3 with repeated keys" + (" (length 3: <=2 plus two 3-write sequences at bound 2)" if q else
-                                                             ", all key patterns"),
-                       "issue_gaps_ticks": [0, 1, 3], "delay_menu_ticks": list(MENU),
-                       "reads": "every tick from 0 to the last possible commit notification, every written key, at "
-                                "every node with CRAQ on / at the tail with CRAQ off; forwarded reads travel 1 tick",
-                       "delay_assignments": (f"full product when <= {1000 if q else 20000} assignments, else deviation "
-                                             f"bound {B}" + (" (2 for length 3 x 3 writes)" if q else
-                                                            " (4 for length 3 x CRAQ x 3 writes)"))}, jobs)
+                       "writes": ("<=3 writes that repeat a key (length 3: <=2 writes plus two 3-write sequences)" if q else
+                                  "length 2: <=3 writes, all key patterns; length 3: <=2 writes all patterns, 3 writes "
+                                  "repeating a key with gaps {1,3}"),
+                       "issue_gaps_ticks": list(G), "delay_menu_ticks": list(MENU),
+                       "reads": "CRAQ on: every tick while a write is unacknowledged or a message in flight (+ store "
+                                "latencies), every written key, at every non-tail node; forwarded reads travel 1 tick; "
+                                "CRAQ off: none (tail reads only is the documented usage and is tautological here)",
+                       "delay_assignments": (f"full product when <= {5 if q else 6} choice points; else deviation "
+                                             + ("bound 3 for 2 writes, 2 for 3 writes" if q else
+                                                "bound 5 (<9 points), 4 (9-14 points), 3 (15 points)"))}, jobs)
 
-    # -- multi-leader -----------------------------------------------------
+    # -- multi-leader -----------------------------------------------------------
     jobs = []
     for n in (2, 3):
         for prof in ("instant", "slow"):
             for res in (("lww",) if q else ("lww", "vcmerge")):
                 cfg = {"n": n, "prof": prof, "resolver": res}
-                if q:
-                    sizes = (2, 3) if n == 2 else (2,)
-                    inps = ml_inputs(sizes, (0, 1, 3), n, early=(n == 2))
-                    if n == 3:
-                        inps += [x for x in ml_inputs((3,), (0, 1), 3) if len({l for (_t, l, _k, _v) in x["writes"]}) == 3
-                                 and len({k for (_t, _l, k, _v) in x["writes"]}) == 1]
+                if q and n == 2:
+                    inps = ml_inputs((2,), G, 2, early=True) + ml_inputs((3,), G, 2)
+                elif q:
+                    inps = ml_inputs((2,), G, 3) + [
+                        x for x in ml_inputs((3,), (0, 1), 3)
+                        if len({l for (_t, l, _k, _v) in x["writes"]}) == 3
+                        and len({k for (_t, _l, k, _v) in x["writes"]}) == 1]
+                elif n == 2:
+                    inps = ml_inputs((2, 3), G, 2, early=True)
                 else:
-                    inps = ml_inputs((2, 3), (0, 1, 3), n, early=True)
+                    inps = ml_inputs((2,), G, 3, early=True) + ml_inputs((3,), (0, 1), 3)
                 for inp in inps:
-                    jobs.append(("multileader", "ml", cfg, inp, B))
+                    jobs.append(("multileader", "ml", cfg, inp,
+                                 B if (q or n == 2) else (4 if len(inp["writes"]) == 2 else 3)))
     plans["multileader"] = ({"leaders": [2, 3], "resolvers": ["lww"] if q else ["lww", "vcmerge"],
                              "store_profiles(W,R ticks)": PROFILES,
                              "writes": "2-3 writes, some key written twice, every placement of writers on leaders up to "
-                                       "renaming" + (" (3 leaders: 2 writes + 3 concurrent writers on one key)" if q else ""),
-                             "issue_gaps_ticks": [0, 1, 3], "delay_menu_ticks": list(MENU),
+                                       "renaming" + (" (3 leaders: 2 writes, plus 3 concurrent writers on one key with gaps "
+                                                     "{0,1})" if q else " (3 leaders x 3 writes: gaps {0,1})"),
+                             "issue_gaps_ticks": list(G), "delay_menu_ticks": list(MENU),
                              "anti_entropy": f"fired by the harness at every leader in turn after the last possible "
                                              f"delivery, {AE_GAP} ticks apart (1 round for 2 leaders, 2 for 3); peer = "
                                              f"random.choice owned by the explorer; optional early round during the writes "
-                                             f"with explored message delays",
-                             "delay_assignments": f"deviation bound {B} (= full product when <= {B} choice points)"}, jobs)
+                                             f"with explored message delays" + (" (2 leaders x 2 writes)" if q else ""),
+                             "delay_assignments": f"deviation bound {B}" + ("" if q else " (3 leaders: 4 for 2 writes, 3 for 3 writes)") +
+                                                  " over message delays and anti-entropy peer picks (= full product when "
+                                                  "there are no more choice points than that)"}, jobs)
     return plans
 
 
@@ -861,7 +904,7 @@ def run_driver(run, name, bounds, jobs, seed):
     jobs = rotate(jobs, seed)
     # cheap jobs first is irrelevant for correctness; keep deterministic order
     res = pmap(_job, jobs, chunksize=1, ordered=True)
-    agg = {"horizon": 0, "unacked": 0, "pre_ae_div": 0, "premise_unmet": 0}
+    agg = {"horizon": 0, "unacked": 0, "pre_ae_div": 0, "premise_unmet": 0, "cpu": 0.0}
     viol = {}
     bounded = 0
     for job, st in zip(jobs, res):
@@ -885,7 +928,7 @@ def run_driver(run, name, bounds, jobs, seed):
         for _ in range(cnt):
             run.violation(fp, desc, rep)
     d.outcomes = d.states
-    d.extra = {"sub_spaces": len(jobs), "sub_spaces_deviation_bounded": bounded,
+    d.extra = {"sub_spaces": len(jobs), "sub_spaces_deviation_bounded": bounded, "cpu_s": round(agg["cpu"], 1),
                "executions_hitting_event_horizon": agg["horizon"], "executions_with_unacknowledged_write": agg["unacked"]}
     if name == "multileader":
         d.extra["executions_diverged_before_anti_entropy(not a violation)"] = agg["pre_ae_div"]
@@ -894,6 +937,7 @@ def run_driver(run, name, bounds, jobs, seed):
         d.exhaustive = False
         d.caps.append(f"{agg['horizon']} executions stopped at the event horizon (convergence not judged there)")
     d.wall_s = time.time() - t0
+    print(f"[{PID}] {name}: sub_spaces={len(jobs)} cpu={agg['cpu']:.1f}s", flush=True)
 
 
 def run_rstore(run, tier, seed):
